@@ -1562,6 +1562,23 @@ def _parent_links(ctx: RuleCtx, mod: T.Any, lattice: T.List[T.Tuple[str, str]], 
                 o, p = norm(fx.node[0].value), norm(val)
                 n += 1
                 guards = [g for g in (_type_guard(a, v, o, p) for a, v in r.conds.items()) if g]
+                # re-pointing an existing link from a replaced parent object OLD to its replacement: `if o.parent is OLD: o.parent = p`
+                # keeps the class invariant exactly when OLD and p have the same class on this path
+                olds = [a.args[1] if a.args[0] == f'{o}.parent' else a.args[0] for a, v in r.conds.items()
+                        if a.kind == 'is' and v and f'{o}.parent' in a.args and a.args[0] != a.args[1]]
+                if 'exact' not in guards and len(olds) == 1:
+                    same = [v for a, v in r.conds.items() if _type_guard(a, True, olds[0], p) == 'exact']
+                    if same == [True]:
+                        guards.append('exact')
+                    elif same == [False]:
+                        bad += 1
+                        if report:
+                            ctx.violation(mod, q, fx.src, f'{fx.text}: an option that yields to {short(olds[0], 50)} is re-pointed to the replacement {short(p, 40)} on the path where the replacement has a '
+                                          f'different class (type({short(olds[0], 40)}) is not type({short(p, 30)})): the yielding option now follows a parent of another class and can report a value outside its own type/choices; '
+                                          f'reference: re-link only when type(option) is type(new parent), otherwise stop yielding', fx.src, path=repr(r))
+                        continue
+                    else:
+                        raise Undecided(f'{q}: {fx.text}: re-link of an existing parent without a recognisable class comparison on the path {r!r}')
                 if 'exact' in guards:
                     if report:
                         ctx.ok(f'{q}: {o}.parent := {short(p, 50)} only when type({short(p, 30)}) is type({o})')
@@ -1615,7 +1632,9 @@ def r8(ctx: RuleCtx) -> None:
                 ny += 1
                 o = norm(fx.node[0].value)
                 v = fx.node[-1]
-                okv = fx.kind == 'store' and ((isinstance(v, ast.Constant) and v.value is False) or norm(v) in (f'{o}.parent is not None', f'bool({o}.parent)', f'None is not {o}.parent'))
+                okv = fx.kind == 'store' and ((isinstance(v, ast.Constant) and v.value is False) or norm(v) in (f'{o}.parent is not None', f'bool({o}.parent)', f'None is not {o}.parent')
+                                              # `x.yielding and c` can only switch yielding off
+                                              or (isinstance(v, ast.BoolOp) and isinstance(v.op, ast.And) and any(norm(x) == f'{o}.yielding' for x in v.values)))
                 if okv:
                     ctx.ok(f'{q}: {fx.text}')
                 elif fx.kind == 'store' and isinstance(v, ast.Constant):
